@@ -111,7 +111,7 @@ def run(ctx):
     kp = Q.calls(eng, KPUNC)
     if len(fp) == 1 and len(kp) == 1 and Q.variant(fp[0]["result"], 0):
         from ..sym import field
-        P = Q.variant(fp[0]["result"], 0)[2][0]
+        P = c10.covering_node(Q.variant(fp[0]["result"], 0)[2][0])
         seed = field(P, 1)
         newp = kp[0]["argv"][3]
 
